@@ -86,11 +86,29 @@ func (l *lockedSource) Seed(s int64) { l.mu.Lock(); defer l.mu.Unlock(); l.src.S
 func Procs(round int) int { return []int{16, 4, 2, 1}[round%4] }
 
 // SeedStore creates a unique string/string store with n items (keys Key(0), Key(10), ...).
+// Every second store seeded by a worker process is AGED: a second committed transaction rewrites every
+// item with the value it already has, so every node has been through an update commit (both physical
+// ids of its handle used, separately stored values really in their own blobs).
 func SeedStore(db sopx.DB, name string, slot int, prof sopx.Profile, n int) (txn.Model, error) {
 	specs := []txn.Spec{{Name: name, Slot: slot, Profile: prof}}
 	p, m := txn.Baseline(specs, n)
-	return m, txn.Commit(txn.Public{DB: db}, p, time.Minute)
+	if err := txn.Commit(txn.Public{DB: db}, p, time.Minute); err != nil {
+		return m, err
+	}
+	if seeded.Add(1)%2 == 0 {
+		var age txn.Program
+		for k, v := range m[name] {
+			age.Ops = append(age.Ops, txn.Op{Store: name, Kind: "update", K: k, V: v})
+		}
+		sort.Slice(age.Ops, func(a, b int) bool { return age.Ops[a].K < age.Ops[b].K })
+		if err := txn.Commit(txn.Public{DB: db}, age, time.Minute); err != nil {
+			return m, fmt.Errorf("ageing: %w", err)
+		}
+	}
+	return m, nil
 }
+
+var seeded atomic.Int64
 
 // InterleavingSignature hashes the cross-transaction order of commit begin/end events.
 func InterleavingSignature(evs []Event) (sig string, overlapped bool) {
